@@ -14,6 +14,9 @@ use std::marker::PhantomData;
 const RANS64_L: u64 = 1u64 << 16; // Lower bound: 65536 (optimized for 64-bit)
 const TF_SHIFT: u32 = 12; // Frequency table size: 4096
 const TOTFREQ: u32 = 1u32 << TF_SHIFT; // Total frequency: 4096
+
+/// Upper bound on output bytes reserved up front from a caller-supplied length
+const MAX_PREALLOCATED_OUTPUT: usize = 64 * 1024;
 const BLOCK_SIZE: usize = 4; // 4-byte read/write operations
 
 /// 64-bit rANS state with hardware optimizations
@@ -554,7 +557,9 @@ impl<P: ParallelVariant> Rans64Decoder<P> {
 
         let mut state = Rans64State::from_state(initial_state);
         let mut pos = data_len - 8;
-        let mut result = Vec::with_capacity(output_length);
+        // `output_length` is caller-supplied: reserve cautiously, the vector grows with the
+        // symbols the input actually yields
+        let mut result = Vec::with_capacity(output_length.min(MAX_PREALLOCATED_OUTPUT));
 
         for _ in 0..output_length {
             let symbol = self.decode_symbol(&mut state, encoded_data, &mut pos)?;
@@ -612,37 +617,33 @@ impl<P: ParallelVariant> Rans64Decoder<P> {
             pos += length;
         }
         
-        // Decode each stream independently in interleaved fashion
-        let mut result = vec![0u8; output_length];
-        let mut stream_positions = vec![0usize; n_streams];
-        
-        // Initialize stream positions at the end of each stream's data (read backwards)
-        for i in 0..n_streams {
-            stream_positions[i] = stream_data[i].len();
-        }
-        
-        // Build indices for each stream (same interleaved assignment as encoding)
-        let mut stream_indices = vec![Vec::new(); n_streams];
-        for i in 0..output_length {
-            let stream_idx = i % n_streams;
-            stream_indices[stream_idx].push(i);
-        }
-        
-        // Decode each stream's symbols (in forward order since we encoded in reverse)
+        // Decode each stream into its own buffer first (stream `s` owns the output positions
+        // s, s + n, s + 2n, ...). Memory is then only committed for symbols the input really
+        // yields, not for a caller-supplied `output_length` a short input cannot satisfy.
+        let mut per_stream: Vec<Vec<u8>> = Vec::with_capacity(n_streams);
         for stream_idx in 0..n_streams {
-            let indices = &stream_indices[stream_idx];
-            let mut stream_pos = stream_positions[stream_idx];
-            
-            for &output_idx in indices {
+            let count = output_length / n_streams
+                + usize::from(stream_idx < output_length % n_streams);
+            let mut symbols = Vec::with_capacity(count.min(MAX_PREALLOCATED_OUTPUT));
+            // Streams are read backwards from their end
+            let mut stream_pos = stream_data[stream_idx].len();
+            for _ in 0..count {
                 let symbol = self.decode_symbol(
-                    &mut states[stream_idx], 
-                    stream_data[stream_idx], 
-                    &mut stream_pos
+                    &mut states[stream_idx],
+                    stream_data[stream_idx],
+                    &mut stream_pos,
                 )?;
-                result[output_idx] = symbol;
+                symbols.push(symbol);
             }
+            per_stream.push(symbols);
         }
-        
+
+        // Interleave: all `output_length` symbols exist at this point
+        let mut result = Vec::with_capacity(output_length);
+        for i in 0..output_length {
+            result.push(per_stream[i % n_streams][i / n_streams]);
+        }
+
         Ok(result)
     }
 }
